@@ -146,6 +146,9 @@ def build_cube(case):
             wcs.array_shape = shape
         except AttributeError:
             pass              # wrappers and gWCS objects have no settable array shape
+    if not cfg & 8 and cfg & 1:
+        # the same WCS object has served another cube of another shape before: nothing of that may stick to it
+        NDCube(np.zeros(tuple(n + 1 for n in shape)), wcs=wcs)
     payload = data
     if cfg & 16:
         import dask.array as da
